@@ -30,7 +30,7 @@ REPO_SRC = os.environ.get('VERIF_REPO_SRC', '/repo/embedded-cli/src')
 
 # order matters only for readability; Verus resolves items crate-wide
 MODULES = ['codes', 'buffer', 'utf8', 'utils', 'input', 'token', 'arguments', 'command', 'help',
-           'autocomplete', 'tmpl_autocomplete', 'tmpl_group_autocomplete', 'editor', 'history', 'writer', 'service', 'builder', 'cli']
+           'autocomplete', 'tmpl_autocomplete', 'tmpl_group_autocomplete', 'tmpl_group_help', 'editor', 'history', 'writer', 'service', 'builder', 'cli']
 ALL_FEATURES = ('history', 'autocomplete', 'help')
 
 CLAUSE_KW = ('requires', 'ensures', 'decreases', 'invariant', 'invariant_except_break', 'recommends',
@@ -587,7 +587,9 @@ def build(features=ALL_FEATURES, modules=None, src_dir=None):
     if 'history' not in features:
         modules = [m for m in modules if m != 'history']
     if 'autocomplete' not in features:
-        modules = [m for m in modules if not m.startswith('tmpl_')]
+        modules = [m for m in modules if not (m.startswith('tmpl_') and 'autocomplete' in m)]
+    if 'help' not in features:
+        modules = [m for m in modules if m != 'tmpl_group_help']
     out = []
     linemap = []
 
